@@ -129,6 +129,7 @@ func init() {
 	}
 
 	suites["c08"] = func(e *emitter, r *rng, thorough bool) {
+		usedBufferHistories(e, []string{"skip", "skipfast"}, true) // the skipping members of a decoder share a Buffer
 		n := 2500
 		if thorough {
 			n = 60000
